@@ -22,6 +22,7 @@ class Checker:
         self.samples = []
         self.deviations = deviations
         self.inst = {}
+        self.auth_notes = set(); self.auth_single_round = True; self.ylist = []; self.vflag = None; self.bytes = None
     # ------------------------------------------------------------------
     def v(self, prop, key, op, detail=None):
         full = prop + '.' + key
@@ -78,7 +79,7 @@ class Checker:
             self.step(op)
     # ------------------------------------------------------------------
     def split(self, op):
-        pre = []; guards = []; cbs = []; enters = []; plines = []; llines = []
+        pre = []; guards = []; cbs = []; enters = []; plines = []; llines = []; self.ylist = []; self.vflag = None; self.bytes = None
         for t, a in op.lines:
             if t == 'c': cbs.append((a[0], a[1]))
             elif t == 'q':
@@ -91,6 +92,9 @@ class Checker:
             elif t == 'e': enters.append((a[0], a[2:]))
             elif t == 'p': plines.append((len(guards), a))
             elif t == 'l': llines.append((a[0], a[1]))
+            elif t == 'y': self.ylist = [tuple(a[i:i + 4]) for i in range(0, len(a), 4)]
+            elif t == 'v': self.vflag = a[0]
+            elif t == 'b': self.bytes = a
         return pre, guards, cbs, enters, plines, llines
 
     def on_destroy(self, op):
@@ -148,9 +152,18 @@ class Checker:
             m.final_exit()
         elif kind == 'QUERY':
             pass
+        elif kind in ('REPLAY', 'REPLAY_ENTER', 'SAVE', 'LOAD'):
+            return self.step_special(op, st, kind, guards, cbs, before)
         else:
             self.v('C00', 'harness|unknown-op-' + kind, op); return
         exp_act, exp_res, exp_sub = m.snapshot()
+        if op.inst == 0:
+            allq = pre + [q for g in guards for q in g['issue']]
+            kindof = {q[2]: q[0] for q in allq}
+            for q in getattr(self, 'carry', []): kindof[q[2]] = q[0]
+            self.carry = list(m.queue)
+            self.auth_vetoed_sched = any(r['vetoed'] and any(kindof.get(i) == SCHEDULE for i in r['ids']) for r in rounds) or 'remain-only-round' in m.notes and False
+            self.auth_notes = set(m.notes); self.auth_single_round = len(rounds) <= 1 and not any(g['issue'] for g in guards) and not queued_before and not any(q[0] == SCHEDULE for q in allq)
         vetoes = sum(1 for r in rounds if r['vetoed']); approved = len(rounds) - vetoes
         notes = set(m.notes)
         # ---- C02 / C04: configuration
@@ -211,6 +224,55 @@ class Checker:
             if before and (op.act, op.res) != before: self.nontrivial['C02'].add((before, tuple(q[:2] for q in pre), op.act, op.res))
         if len(self.samples) < 6 and processed and (len(rounds) > 1 or self.stats['ops'] < 4):
             self.samples.append({'step': op.step, 'op': kind, 'requests': [[KIND_NAMES[q[0]], q[1], q[2], q[3]] for q in pre], 'rounds': [{'ids': r['ids'], 'vetoed': r['vetoed']} for r in rounds], 'active': op.act, 'resumable': op.res, 'callbacks': [[METH.get(me, me), s] for me, s in cbs][:40]})
+        st['prev_op'] = op
+
+    # ------------------------------------------------------------------ replay / save / load
+    def step_special(self, op, st, kind, guards, cbs, before):
+        m = st['model']
+        auth = self.inst.get(0, {}).get('prev_op')
+        if kind in ('REPLAY', 'REPLAY_ENTER'):
+            self.stats['C09.replays'] += 1
+            if guards or any(me in (4, 14) for me, s in cbs): self.v('C09', 'replay|guards-consulted', op, [g['state'] for g in guards][:6])
+            if not self.vflag: self.v('C09', 'replay|returned-false-for-a-recorded-history', op, self.ylist)
+            if auth is not None and auth.act is not None:
+                single = getattr(self, 'auth_rounds', None)
+                draws = op.draws or auth.draws
+                if op.act != auth.act or op.sub != auth.sub:
+                    if draws: self.stats['C09.replay-diverged-with-random-draws(not judged)'] += 1
+                    else: self.v('C09', 'replay|active-configuration-differs-from-authority' + ('|schedule-applied-in-vetoed-round' if getattr(self, 'auth_vetoed_sched', False) else '') + ('|remain-only-round' if self.auth_notes and 'remain-only-round' in self.auth_notes else ''), op, {'authority': [auth.act, auth.sub], 'replica': [op.act, op.sub], 'history': self.ylist})
+                elif op.res != auth.res:
+                    if self.auth_single_round and not any(y[1] == SCHEDULE for y in self.ylist) and not draws and kind == 'REPLAY':
+                        self.v('C09', 'replay|resumable-differs-after-single-round-step', op, {'authority': auth.res, 'replica': op.res, 'history': self.ylist})
+                    else: self.stats['C09.replay-resumable-differs(multi-round/schedule: not judged)'] += 1
+                else:
+                    self.nontrivial['C09.replay'].add((auth.act, auth.res, tuple(y[1:3] for y in self.ylist)))
+        elif kind == 'SAVE':
+            self.stats['C08.saves'] += 1
+            if cbs: self.v('C08', 'save|callbacks-invoked', op, cbs[:4])
+            if before and (op.act, op.res) != before: self.v('C08', 'save|changed-the-instance', op)
+            self.last_save = (op.live, op.act, op.res, op.sub, self.bytes)
+        elif kind == 'LOAD':
+            self.stats['C08.loads'] += 1
+            src = getattr(self, 'last_save', None)
+            if guards: self.stats['C08.load-consulted-guards'] += 1
+            if src is not None:
+                if (op.live, op.act, op.sub) != (src[0], src[1], src[3]): self.v('C08', 'load|active-configuration-differs-from-saved', op, {'saved': src[1], 'loaded': op.act})
+                elif op.res != src[2]: self.v('C08', 'load|resumable-differs-from-saved', op, {'saved': src[2], 'loaded': op.res})
+                if before:
+                    gone = set(i for i in range(self.n) if before[0][i] == '1' and src[1][i] != '1' and self.named[i])
+                    come = set(i for i in range(self.n) if before[0][i] != '1' and src[1][i] == '1' and self.named[i])
+                    ex = set(s for me, s in cbs if me == EXIT); en = set(s for me, s in cbs if me == ENTER)
+                    if not gone <= ex: self.v('C08', 'load|exit-missing-for-state-that-stopped-being-active', op, sorted(gone - ex)[:6])
+                    if not come <= en: self.v('C08', 'load|enter-missing-for-state-that-became-active', op, sorted(come - en)[:6])
+                    self.nontrivial['C08'].add((before, src[1], src[2]))
+        if kind != 'SAVE':
+            m.resync(op.act, op.res); m.prev = []
+            if kind == 'LOAD': m.queue = []
+        self.life(op, st, cbs, op.act)
+        if op.live:
+            for name, bits in (('enter', op.pe), ('exit', op.px), ('change', op.pc)):
+                if '1' in bits: self.v('C13', 'pending|isPending%s-true-while-nothing-pending' % name.capitalize(), op, bits)
+        self.configs.add((op.act, op.res))
         st['prev_op'] = op
 
     def cover_request(self, q, before):
@@ -288,16 +350,25 @@ class Checker:
             for s, (idx, tid) in op.tgt.items():
                 if idx < 0 or idx >= len(op.prev): self.v('C09', 'lastTransitionTo|points-outside-previousTransitions', op, s)
             approved = [r for r in rounds if not r['vetoed']]
-            if len(op.prev) == 1 and len(approved) == 1 and before:
+            if len(op.prev) == 1 and len(approved) == 1 and before and kind not in ('ENTER', 'CONSTRUCT'):
                 newly = [s for s in range(self.n) if op.act[s] == '1' and before[0][s] != '1']
+                util = set(r[1] for r in m.resolutions if r[0] in ('utility', 'random'))
                 for s in newly:
                     t = op.tgt.get(s)
-                    if t is None: self.v('C09', 'lastTransitionTo|null-for-state-activated-by-single-request', op, s); break
+                    if t is None:
+                        below = any(a in util for a in self.ancestors(s))
+                        self.v('C09', 'lastTransitionTo|null-for-state-activated-by-single-request' + ('|sub-state-chosen-by-utility-or-random-evaluation' if below else ''), op, s); break
+                    elif t[0] != 0: self.v('C09', 'lastTransitionTo|points-at-another-entry-after-single-request', op, s); break
             # model comparison (which entry each state is pinned to)
             exp_t = {s: i for s, i in m.targets.items() if i < len(m.prev)}
             obs_t = {s: i for s, (i, _) in op.tgt.items()}
             if exp_t != obs_t and obs == exp:
                 self.stats['C09.targets-differ-from-model'] += 1
+                # C14: a state activated in this step must not be attributed to a different request of the step
+                if before:
+                    for s in range(self.n):
+                        if op.act[s] == '1' and before[0][s] != '1' and s in obs_t and s in exp_t and obs_t[s] != exp_t[s]:
+                            self.v('C14', 'payload|lastTransitionTo-attributes-state-to-another-request-of-the-step', op, {'state': s, 'expected-entry': exp_t[s], 'observed-entry': obs_t[s], 'history': obs}); break
 
     # ------------------------------------------------------------------ C13
     def queries(self, op, kind, plines, rounds, cbs, before, m):
